@@ -117,6 +117,8 @@ pub struct Client {
     pub effective: BTreeSet<usize>,
     /// transitions: (state before, log idx or usize::MAX for a local merge, state after)
     pub transitions: Vec<(StateKey, usize, StateKey)>,
+    /// value of `offers` when the transition with the same index happened
+    pub transition_seq: Vec<usize>,
     /// per group: log index of own commit currently pending (echo mode)
     pub pending_own: HashMap<usize, usize>,
     /// per group: proposals (log idx) currently queued at this client
@@ -214,6 +216,7 @@ impl Client {
             offers: 0,
             effective: BTreeSet::new(),
             transitions: vec![],
+            transition_seq: vec![],
             pending_own: HashMap::new(),
             queued_props: HashMap::new(),
             restarts: 0,
